@@ -21,7 +21,7 @@ var (
 	isSoft      bool
 	isMixed     bool
 	isHard      bool
-	resetRegexp = regexp.MustCompile(`HEAD@\{\d\}`)
+	resetRegexp = regexp.MustCompile(`^HEAD@\{\d+\}$`)
 )
 
 func resetHead(arg, rootGoitPath string, logRecord *store.LogRecord, head *store.Head, refs *store.Refs, conf *store.Config) error {
